@@ -311,7 +311,15 @@ func (w *clientWorld) generate() {
 	}
 	if w.validator == 2 {
 		w.rejectAt = ch.Range(1, 4, "validator rejects attempt")
-		w.rejectErr = newInjected("validator verdict")
+		// verdicts of any error type are permanent: also ones that look temporary or match a sentinel
+		switch ch.Weighted([]int{3, 1, 1}, "validator verdict kind") {
+		case 0:
+			w.rejectErr = newInjected("validator verdict")
+		case 1:
+			w.rejectErr = &timeoutLikeError{what: "validator verdict"}
+		case 2:
+			w.rejectErr = newInjectedAs("validator verdict", disguises[ch.Intn(len(disguises), "verdict sentinel")])
+		}
 	}
 	if prop == "C10" || ch.Chance(1, 4, "request body") {
 		w.bodyKind = ch.Weighted([]int{2, 1, 4, 2, 2}, "body kind")
@@ -470,7 +478,7 @@ func (rt *clientRT) RoundTrip(req *http.Request) (*http.Response, error) {
 	case 1:
 		switch ch.Weighted([]int{4, 3, 1, 1, 1}, "read error kind") {
 		case 0:
-			a.endErr = newInjected(fmt.Sprintf("read #%d at %d", a.n, end))
+			a.endErr = newInjectedAs(fmt.Sprintf("read #%d at %d", a.n, end), drawDisguise(ch, "read error"))
 		case 1:
 			a.endErr = io.ErrUnexpectedEOF // what net/http reports for a connection cut inside the body
 		case 2:
